@@ -204,6 +204,27 @@ impl Sim {
         }
     }
 
+    /// Like `new`, but reuses the store (reset in place) of a finished simulation.
+    pub(crate) fn recycle(old: Sim, cfg: ClientCfg, world: World) -> Sim {
+        let Sim {
+            client,
+            template,
+            consensus,
+            ..
+        } = old;
+        let client = client.expect("client").recycle(cfg, &template);
+        Sim {
+            client: Some(client),
+            world,
+            queue: VecDeque::new(),
+            sent_log: vec![],
+            trace: vec![],
+            template,
+            consensus,
+            record_trace: false,
+        }
+    }
+
     pub(crate) fn c(&self) -> &Client {
         self.client.as_ref().unwrap()
     }
